@@ -171,7 +171,7 @@ PLANS = {
                        "stdin runs in the process tier under -race with uncontrolled scheduling (monitored, not scheduled)"),
         "level_note": ("trusted: Go race detector (happens-before based, reports only races that occur in explored executions); controller gate operations are bracketed by runtime.RaceDisable/Enable so they add no happens-before edges; "
                        "ristretto cache internals are third-party threads that run for real; goroutines a query leaves behind after Run returned are drained and counted as a probe, not a violation"),
-        "parts": [{"check": "c29", "race": True, "quick": 4000, "thorough": 300000, "env": {"VERIF_SHRINK_BUDGET": "150"}},
+        "parts": [{"check": "c29", "race": True, "quick": 3200, "thorough": 300000, "env": {"VERIF_SHRINK_BUDGET": "150"}},
                   # the same scenarios on several Ps: with one P, sync.Pool hand-offs inside third-party code order the goroutines and can hide a race
                   {"check": "c29", "tag": ".p4", "race": True, "gomaxprocs": 4, "workers": 4, "offset": 100000000, "quick": 400, "thorough": 40000, "env": {"VERIF_SHRINK_BUDGET": "150"}},
                   ],
